@@ -8,6 +8,8 @@ see that each argument sits in the field the documentation names, and (3) answer
 generated legal response - success with arbitrary payload values, or failure with any result
 reason and an arbitrary or absent message - encoded with the independent reference, delivered
 through a generated chunk schedule, optionally truncated or replaced by undecodable bytes.
+Set-up (a'), call sequences: 2-5 calls on ONE client object against the same responder; every
+call is judged as in (a), and every value handed back earlier must still read the same at the end.
 Set-up (b), real engine: generated call sequences against vlib.harness.Server; the client's
 return value / exception is compared with the response captured on the wire and decoded with
 ttlvref."""
@@ -218,9 +220,47 @@ def get_grid():
 
 
 # ----------------------------------------------------------------------------- running
+def seq_case_s(api):
+    """A sequence of 2-5 calls on one client: operations of one family, so that answers with and
+    without optional fields, successes and failures follow each other on the same code path."""
+    families = [["encrypt", "decrypt"], ["sign", "signature_verify", "mac"],
+                ["get", "get_attributes", "get_attribute_list"], ["create", "register", "locate"],
+                ["activate", "revoke", "destroy"], sorted(n for n in OPS if api in OPS[n].apis)]
+    families = [[n for n in f if n in OPS and api in OPS[n].apis] for f in families]
+    families = [f for f in families if f]
+
+    @st.composite
+    def case(draw):
+        v = draw(st.sampled_from([list(x) for x in W.VERSIONS]))
+        fam = draw(st.sampled_from(families))
+        n = draw(st.integers(2, 5))
+        calls = []
+        for _ in range(n):
+            name = draw(st.sampled_from(fam))
+            op = OPS[name]
+            c = {"op": name, "args": draw(op.args(tuple(v), api)),
+                 "resp": draw(resp_s(op, tuple(v)))}
+            calls.append(c)
+        return {"mode": "scripted-seq", "api": api, "v": v, "calls": calls,
+                "chunks": draw(chunks_s)}
+
+    return case()
+
+
+def seq_excluded(spec):
+    for c in spec["calls"]:
+        one = {"op": c["op"], "api": spec["api"], "args": c["args"], "resp": c["resp"]}
+        why = excluded(one)
+        if why:
+            return why
+    return None
+
+
 def execute(spec):
     if spec.get("mode") == "engine":
         return EN.run_engine(spec)
+    if spec.get("mode") == "scripted-seq":
+        return X.run_scripted_seq(spec)
     return X.run_scripted(spec)
 
 
@@ -261,6 +301,16 @@ def worker(seed, shard, nshards, n_per_target, n_engine):
         _record(col, spec, execute(spec))
     if n_engine:
         core.draw_examples(EN.engine_case_s(), n_engine, core.derive_seed(seed, "e", shard), fe)
+
+    def fseq(spec):
+        why = seq_excluded(spec)
+        if why:
+            col.exclude(why)
+            return
+        _record(col, spec, execute(spec))
+    for api in ("pie", "proxy"):
+        core.draw_examples(seq_case_s(api), max(4, n_per_target // 4),
+                           core.derive_seed(seed, "q", api, shard), fseq)
     if shard == 1 % nshards:
         for spec in get_grid():
             res = execute(spec)
